@@ -36,8 +36,11 @@ fn show_cache(c: &ObjectCacheControl) -> String {
     }
 }
 
-pub fn show_meta(toi: u128, m: &ObjectMetadata) -> String {
+pub fn show_meta(toi: u128, m: &ObjectMetadata, fti_view: bool) -> String {
+    // `fti_view`: the object packet reached the receiver before the FDT, so the OTI may stem from EXT_FTI, which does not
+    // carry every field (parity, B of the rateless schemes): only encoding id and symbol length are compared then
     let oti = match &m.oti {
+        Some(o) if fti_view => format!("{}:{}", o.fec_encoding_id as u8, o.encoding_symbol_length),
         Some(o) => OtiSpec::from_oti(o).show(),
         None => "~".into(),
     };
@@ -75,19 +78,58 @@ fn object_pkt(toi: u128, now: u64) -> Vec<u8> {
     hk::new_alc_pkt(&oti, &0u128, 1, &p, false, st(now))
 }
 
-/// push FDT packets then one object packet per TOI; returns the canonical `R ...` line (or PANIC) and the record
-pub fn receive(pkts: &[Vec<u8>], tois: &[u128], now: u64) -> (String, Option<Rc<Rec>>) {
+/// the first packet of an object as the sender would emit it: in-band FTI unless a per-object OTI says otherwise,
+/// EXT_CENC iff `inband_cenc`, one source symbol
+pub fn signalled_pkt(eng: &FdtEngine, toi: u128, now: u64) -> Vec<u8> {
+    let (cfg, ob) = match (eng.cfg.as_ref(), eng.objs.get(&toi)) {
+        (Some(c), Some(o)) => (c, o),
+        _ => return object_pkt(toi, now),
+    };
+    let eff = oracle::effective_oti(cfg, ob);
+    let inband_fti = if ob.oti.is_some() { ob.flags & 2 != 0 } else { true };
+    let oti = match eff.to_oti(inband_fti) {
+        Some(o) => o,
+        None => return object_pkt(toi, now),
+    };
+    let q = hk::block_partitioning(eff.b as u64, ob.tlen, eff.e as u64);
+    let n = (eff.e as u64).min(ob.tlen) as usize;
+    let p = hk::PktFields {
+        payload: vec![0u8; n],
+        transfer_length: ob.tlen,
+        esi: 0,
+        sbn: 0,
+        toi,
+        fdt_id: None,
+        cenc: cenc_of(ob.cenc),
+        inband_cenc: ob.flags & 4 != 0,
+        close_object: false,
+        source_block_length: q.0 as u32,
+        sender_current_time: false,
+    };
+    hk::new_alc_pkt(&oti, &0u128, 1, &p, false, st(now))
+}
+
+/// push the FDT packets and one packet per listed object (`obj_first`: the object packets reach the receiver before the
+/// FDT); returns the canonical `R ...` line (or PANIC) and the record
+pub fn receive(pkts: &[Vec<u8>], objs: &[(u128, Vec<u8>)], obj_first: bool, now: u64) -> (String, Option<Rc<Rec>>) {
     let rec = Rc::new(Rec::default());
     let ep = UDPEndpoint::new(None, "224.0.0.1".to_owned(), 1234);
     let mut cfg = RConfig::default();
     cfg.enable_fdt_expiration_check = false;
     let mut r = Receiver::new(&ep, 1, rec.clone(), Some(cfg));
     let res = guarded(AssertUnwindSafe(|| {
+        if obj_first {
+            for (_, p) in objs {
+                let _ = r.push_data(p, st(now));
+            }
+        }
         for p in pkts {
             let _ = r.push_data(p, st(now));
         }
-        for t in tois {
-            let _ = r.push_data(&object_pkt(*t, now), st(now));
+        if !obj_first {
+            for (_, p) in objs {
+                let _ = r.push_data(p, st(now));
+            }
         }
     }));
     if let Err(loc) = res {
@@ -97,13 +139,13 @@ pub fn receive(pkts: &[Vec<u8>], tois: &[u128], now: u64) -> (String, Option<Rc<
     if fdt.is_empty() {
         return ("R nofdt".into(), Some(rec.clone()));
     }
-    let mut out = format!("R {} {}", us(fdt[0].1), tois.len());
+    let mut out = format!("R {} {}", us(fdt[0].1), objs.len());
     let metas = rec.metas.borrow();
-    for t in tois {
+    for (t, _) in objs {
         match metas.iter().find(|(x, _)| x == t) {
             Some((_, m)) => {
                 out.push(' ');
-                out.push_str(&show_meta(*t, m));
+                out.push_str(&show_meta(*t, m, obj_first));
             }
             None => out.push_str(&format!(" M {} nooti", t)),
         }
@@ -113,7 +155,7 @@ pub fn receive(pkts: &[Vec<u8>], tois: &[u128], now: u64) -> (String, Option<Rc<
     (out, Some(rec))
 }
 
-pub fn op_rx(eng: &mut FdtEngine, id: u32, now: u64, o: &mut Oracle) -> String {
+pub fn op_rx(eng: &mut FdtEngine, id: u32, now: u64, variant: &str, o: &mut Oracle) -> String {
     let ix = match eng.insts.iter().rposition(|i| i.id == id) {
         Some(ix) => ix,
         None => return "none".into(),
@@ -130,8 +172,14 @@ pub fn op_rx(eng: &mut FdtEngine, id: u32, now: u64, o: &mut Oracle) -> String {
         None => return "R noparse".into(),
     };
     let tois: Vec<u128> = p.files.iter().filter_map(|f| f.toi.parse().ok()).collect();
-    let (out, rec) = receive(&pkts, &tois, now);
-    let what = format!("flute receiver on instance id {}", id);
+    // a: FDT first, bare object packets; b: FDT first, packets with the object's own in-band signalling;
+    // c: the object packets reach the receiver BEFORE the FDT (re-ordering / late join)
+    let objs: Vec<(u128, Vec<u8>)> = tois
+        .iter()
+        .map(|t| (*t, if variant == "a" { object_pkt(*t, now) } else { signalled_pkt(eng, *t, now) }))
+        .collect();
+    let (out, rec) = receive(&pkts, &objs, variant == "c", now);
+    let what = format!("flute receiver on instance id {} (delivery {})", id, match variant { "a" => "FDT then bare packets", "b" => "FDT then signalled packets", _ => "object packets before the FDT" });
     let rec = match rec {
         Some(r) => r,
         None => {
@@ -208,7 +256,12 @@ pub fn op_rx(eng: &mut FdtEngine, id: u32, now: u64, o: &mut Oracle) -> String {
         let eff = oracle::effective_oti(cfg, ob);
         let got = m.oti.as_ref().map(OtiSpec::from_oti);
         let class = if eff.enc == 1 { "rx-oti-raptor-z" } else { "rx-oti" };
-        cmp(class, got.as_ref() == Some(&eff), got.map(|g| g.show()).unwrap_or("~".into()), eff.show());
+        if variant == "c" {
+            let ok = got.as_ref().map(|g| g.enc == eff.enc && g.e == eff.e).unwrap_or(false);
+            cmp(class, ok, got.map(|g| g.show()).unwrap_or("~".into()), eff.show());
+        } else {
+            cmp(class, got.as_ref() == Some(&eff), got.map(|g| g.show()).unwrap_or("~".into()), eff.show());
+        }
     }
     out
 }
@@ -373,7 +426,8 @@ pub fn op_rxabs(eng: &mut FdtEngine, a: &[&str], _o: &mut Oracle) -> String {
         return format!("HARNESS-XML {}", chk);
     }
     tois.sort();
-    let (out, _) = receive(&fdt_pkts(&xml, 7, now), &tois, now);
+    let objs: Vec<(u128, Vec<u8>)> = tois.iter().map(|t| (*t, object_pkt(*t, now))).collect();
+    let (out, _) = receive(&fdt_pkts(&xml, 7, now), &objs, false, now);
     if out.starts_with("PANIC") {
         return "PANIC".into();
     }
